@@ -1,0 +1,51 @@
+//go:build verif
+
+package oned
+
+import "github.com/makiuchi-d/gozxing"
+
+// Re-exports of the unexported steps of the Code 39 / Code 93 / Codabar row decoders for the /verif
+// correspondence harness (work package oned39).  Compiled only with `-tags verif`; nothing here changes behaviour.
+
+func VerifCode39ToNarrowWidePattern(counters []int) int { return code39ToNarrowWidePattern(counters) }
+
+func VerifCode93ToPattern(counters []int) int { return code93ToPattern(counters) }
+
+func VerifCode39FindAsteriskPattern(row *gozxing.BitArray) (int, int, error) {
+	return code39FindAsteriskPattern(row, make([]int, 9))
+}
+
+func VerifCode93FindAsteriskPattern(row *gozxing.BitArray) (int, int, error) {
+	return NewCode93Reader().(*code93Reader).findAsteriskPattern(row)
+}
+
+// VerifCodabarSetCounters: the counters setCounters records for a row.
+func VerifCodabarSetCounters(row *gozxing.BitArray) ([]int, error) {
+	r := NewCodaBarReader().(*codabarReader)
+	if e := r.setCounters(row); e != nil {
+		return nil, e
+	}
+	return append([]int{}, r.counters[:r.counterLength]...), nil
+}
+
+func verifCodabarWith(counters []int) *codabarReader {
+	r := NewCodaBarReader().(*codabarReader)
+	r.counters = append(r.counters[:0], counters...)
+	r.counterLength = len(counters)
+	return r
+}
+
+func VerifCodabarToNarrowWidePattern(counters []int, position int) int {
+	return verifCodabarWith(counters).toNarrowWidePattern(position)
+}
+
+func VerifCodabarFindStartPattern(counters []int) (int, error) {
+	return verifCodabarWith(counters).findStartPattern()
+}
+
+// VerifCodabarValidatePattern: validatePattern(start) with decodeRowResult = table offsets `result`.
+func VerifCodabarValidatePattern(counters []int, result []byte, start int) error {
+	r := verifCodabarWith(counters)
+	r.decodeRowResult = append(r.decodeRowResult[:0], result...)
+	return r.validatePattern(start)
+}
